@@ -283,15 +283,25 @@ var (
 	coerceSchemas sync.Map // type text -> *ast.Schema
 )
 
-func coerceSchemaFor(t string) (*ast.Schema, error) {
-	if s, ok := coerceSchemas.Load(t); ok {
+func coerceSchemaFor(t string) (*ast.Schema, error) { return coerceSchemaVariant(t, false) }
+
+// coerceSchemaVariant: narrow = a SECOND schema with the same type names whose enum E has one value only
+// (what a process sees that serves two schemas: nothing learnt from one may be applied to the other)
+func coerceSchemaVariant(t string, narrow bool) (*ast.Schema, error) {
+	key := t
+	sdl := coerceSDL
+	if narrow {
+		key = "narrow:" + t
+		sdl = strings.Replace(coerceSDL, "enum E { RED GREEN }", "enum E { RED }", 1)
+	}
+	if s, ok := coerceSchemas.Load(key); ok {
 		return s.(*ast.Schema), nil
 	}
-	s, err := gqlparser.LoadSchema(&ast.Source{Name: "coerce.graphql", Input: coerceSDL + "type Query { f(x: " + t + "): Int }\n"})
+	s, err := gqlparser.LoadSchema(&ast.Source{Name: "coerce.graphql", Input: sdl + "type Query { f(x: " + t + "): Int }\n"})
 	if err != nil {
 		return nil, err
 	}
-	coerceSchemas.Store(t, s)
+	coerceSchemas.Store(key, s)
 	return s, nil
 }
 
@@ -316,8 +326,12 @@ type coerceObs struct {
 
 // runCoerce validates `query($v: T = def) { f(x: $v) }` and coerces the variables map.
 func runCoerce(t JType, def, given []JVal, variant int) (obs coerceObs, internal string) {
+	return runCoerceOn(t, def, given, variant, false)
+}
+
+func runCoerceOn(t JType, def, given []JVal, variant int, narrow bool) (obs coerceObs, internal string) {
 	tt := t.String()
-	schema, err := coerceSchemaFor(tt)
+	schema, err := coerceSchemaVariant(tt, narrow)
 	if err != nil {
 		return obs, "schema for " + tt + ": " + err.Error()
 	}
@@ -398,6 +412,9 @@ func checkC14(c *core.Ctx) {
 		leaves = `{"Int", "Float", "String", "Boolean", "ID", "E", "In", "Any"}`
 	}
 	cfg := fmt.Sprintf("SPECIFICATION Spec\nCONSTANTS\n  Devs = %s\n  D = %d\n  Leaves = %s\nINVARIANTS Emit Sound Idempotent Identity Complete\nCHECK_DEADLOCK FALSE\n", core.DevSetTLA(devs), D, leaves)
+	narrow := false
+	label := "Coerce_MC"
+phase:
 	var mu sync.Mutex
 	var ncases, nontrivial, nbad int64
 	lines := make(chan string, 4096)
@@ -420,7 +437,7 @@ func checkC14(c *core.Ctx) {
 				}
 				cs.Exp.Val = jvNorm(cs.Exp.Val)
 				for variant := 0; variant < 5; variant++ {
-					obs, internal := runCoerce(cs.T, cs.Def, cs.Given, variant)
+					obs, internal := runCoerceOn(cs.T, cs.Def, cs.Given, variant, narrow)
 					if internal != "" {
 						c.Internal("%s", internal)
 						break
@@ -441,7 +458,7 @@ func checkC14(c *core.Ctx) {
 						if len(cs.Given) > 0 {
 							given = cs.Given[0].String()
 						}
-						c.Violation(fmt.Sprintf("Coerce_MC case: $v: %s, value %s (Go kinds variant %d): %s", cs.T, given, variant, what),
+						c.Violation(fmt.Sprintf("%s case: $v: %s, value %s (Go kinds variant %d): %s", label, cs.T, given, variant, what),
 							map[string]any{"case": cs, "variant": variant, "observed": obs})
 						break
 					}
@@ -470,7 +487,15 @@ func checkC14(c *core.Ctx) {
 		return
 	}
 	c.Count(ncases*5, nontrivial, ncases)
-	c.Logf("Coerce_MC: %d cases (x5 Go-kind variants) replayed into validator.VariableValues", ncases)
+	c.Logf("%s: %d cases (x5 Go-kind variants) replayed into validator.VariableValues", label, ncases)
+	if !narrow {
+		// second phase, same process: a SECOND schema with the same type names but enum E { RED } only;
+		// the specification is evaluated for that schema (switch SCHEMA2)
+		narrow = true
+		label = "Coerce_MC on a second schema (enum E { RED })"
+		cfg = fmt.Sprintf("SPECIFICATION Spec\nCONSTANTS\n  Devs = %s\n  D = 1\n  Leaves = {\"E\", \"In\"}\nINVARIANTS Emit Sound Idempotent Identity Complete\nCHECK_DEADLOCK FALSE\n", core.DevSetTLA(append(append([]string{}, devs...), "SCHEMA2")))
+		goto phase
+	}
 
 	// (b) random, deeper
 	n := 3000
